@@ -40,5 +40,6 @@ noncomputable def Expr.eval (f : Fn) (t : ℝ) : Expr → ℝ
   | .mul a b => a.eval f t * b.eval f t
   | .div a b => a.eval f t / b.eval f t
   | .pow e n => e.eval f t ^ n
+  | .comp g e => g.real (e.eval f t)
 
 end OdlModel.UfuncDeriv
